@@ -30,6 +30,12 @@ func (c *Cluster) finalChecks(spec *runSpec) {
 }
 
 func init() {
+	synthRun := func(c *Cluster, spec *runSpec) {
+		c.synthetic = true
+		c.buildSynthDag(NewRNG(Mix(c.seed, 0x73796e)))
+		c.dagReplay(c.cfg.Variants)
+	}
+	_ = synthRun
 	profiles["C01"] = &profile{
 		config: func(r *RNG, thorough bool) *RunConfig {
 			cfg := baseConfig("C01", r, thorough)
@@ -44,9 +50,28 @@ func init() {
 			if r.Bool(0.5) {
 				cfg.PAsync = 0.1 + 0.4*r.Float()
 			}
+			if cfg.N0 >= 4 && r.Bool(0.5) {
+				cfg.Straggler = 1 + r.Intn(cfg.N0)
+				cfg.StragglerP = []float64{0.03, 0.06, 0.1, 0.2}[r.Intn(4)]
+				cfg.PSilence = 0
+			}
+			if r.Bool(0.3) {
+				// two (or more) honest views of one synthetic straggler-heavy history
+				cfg.Synthetic = true
+				cfg.Variants = 5
+				if thorough {
+					cfg.Variants = 10
+				}
+			}
 			return cfg
 		},
-		run: clusterRun,
+		run: func(c *Cluster, spec *runSpec) {
+			if c.cfg.Synthetic {
+				synthRun(c, spec)
+				return
+			}
+			clusterRun(c, spec)
+		},
 	}
 	profiles["C02"] = &profile{
 		config: func(r *RNG, thorough bool) *RunConfig {
